@@ -88,10 +88,27 @@ def concat (j : Json) : R Json := do
   let s2 ← fld j "s2" >>= asList asNat
   pure (ofNats (concatSampling s1 s2))
 
+/-- fold counts `bootstrap_crossval` uses: the given ones, else the generated default-k text
+    evaluated on the (real) expected number of distinct groups; 1 for a single RDM group -/
+def defaultK (j : Json) : R Json := do
+  let n ← fld j "n_rdm_groups" >>= asNat
+  let xr ← fld j "x_rdm" >>= asFloat
+  let xp ← fld j "x_pattern" >>= asFloat
+  let kr ← optNat j "k_rdm"
+  let kp ← optNat j "k_pattern"
+  let kr' : Int := match kr with
+    | some k => k
+    | none => if n = 1 then 1 else Rsa.Gen.C05.defaultKRdmReal xr
+  let kp' : Int := match kp with
+    | some k => k
+    | none => Rsa.Gen.C05.defaultKPatternReal xp
+  pure (Json.arr #[ofInt kr', ofInt kp'])
+
 def handle : Handler := fun op j =>
   match op with
   | "c05.sets" => some (sets j)
   | "c05.concat" => some (concat j)
+  | "c05.default_k" => some (defaultK j)
   | _ => none
 
 end Rsa.Drv.C05
